@@ -243,7 +243,7 @@ func (ctx *_OpContextType) encodeRaw(as abi.As, arg *abi.AsArgument) (x uint32, 
 	case OpFormatType_2R_level:
 		rd := ctx.regI(arg.Rd)
 		rj := ctx.regI(arg.Rs1)
-		level := uint32(arg.Imm) & 0xFFFF
+		level := uint32(arg.Imm) & 0xFF
 		x |= (level << 10) | (rj << 5) | rd
 		return
 	case OpFormatType_level:
@@ -252,7 +252,7 @@ func (ctx *_OpContextType) encodeRaw(as abi.As, arg *abi.AsArgument) (x uint32, 
 		return
 	case OpFormatType_0_1R_seq:
 		rj := ctx.regI(arg.Rs1)
-		seq := uint32(arg.Imm) & 0xFFFF
+		seq := uint32(arg.Imm) & 0xFF
 		x |= (seq << 10) | (rj << 5)
 		return
 	case OpFormatType_op_2R:
